@@ -74,26 +74,32 @@ func (r *RedisError) IsNil() bool {
 
 // IsMoved checks if it is a redis MOVED message and returns the moved address.
 func (r *RedisError) IsMoved() (addr string, ok bool) {
-	if ok = strings.HasPrefix(r.string(), "MOVED"); ok {
-		addr = fixIPv6HostPort(strings.Split(r.string(), " ")[2])
+	if strings.HasPrefix(r.string(), "MOVED") {
+		if parts := strings.Split(r.string(), " "); len(parts) > 2 {
+			return fixIPv6HostPort(parts[2]), true
+		}
 	}
-	return
+	return "", false
 }
 
 // IsAsk checks if it is a redis ASK message and returns ask address.
 func (r *RedisError) IsAsk() (addr string, ok bool) {
-	if ok = strings.HasPrefix(r.string(), "ASK"); ok {
-		addr = fixIPv6HostPort(strings.Split(r.string(), " ")[2])
+	if strings.HasPrefix(r.string(), "ASK") {
+		if parts := strings.Split(r.string(), " "); len(parts) > 2 {
+			return fixIPv6HostPort(parts[2]), true
+		}
 	}
-	return
+	return "", false
 }
 
 // IsRedirect checks if it is a redis REDIRECT message and returns redirect address.
 func (r *RedisError) IsRedirect() (addr string, ok bool) {
-	if ok = strings.HasPrefix(r.string(), "REDIRECT"); ok {
-		addr = fixIPv6HostPort(strings.Split(r.string(), " ")[1])
+	if strings.HasPrefix(r.string(), "REDIRECT") {
+		if parts := strings.Split(r.string(), " "); len(parts) > 1 {
+			return fixIPv6HostPort(parts[1]), true
+		}
 	}
-	return
+	return "", false
 }
 
 func fixIPv6HostPort(addr string) string {
@@ -1021,6 +1027,9 @@ func (m *RedisMessage) AsXRead() (ret map[string][]XRangeEntry, err error) {
 		return nil, err
 	}
 	if m.IsMap() {
+		if len(m.values())%2 != 0 {
+			return nil, fmt.Errorf("%w: redis map message has an odd number of elements: %d", errParse, len(m.values()))
+		}
 		ret = make(map[string][]XRangeEntry, len(m.values())/2)
 		for i := 0; i < len(m.values()); i += 2 {
 			if ret[m.values()[i].string()], err = m.values()[i+1].AsXRange(); err != nil {
@@ -1118,6 +1127,9 @@ func (m *RedisMessage) AsXReadSlices() (map[string][]XRangeSlice, error) {
 	var ret map[string][]XRangeSlice
 	var err error
 	if m.IsMap() {
+		if len(m.values())%2 != 0 {
+			return nil, fmt.Errorf("%w: redis map message has an odd number of elements: %d", errParse, len(m.values()))
+		}
 		ret = make(map[string][]XRangeSlice, len(m.values())/2)
 		for i := 0; i < len(m.values()); i += 2 {
 			if ret[m.values()[i].string()], err = m.values()[i+1].AsXRangeSlices(); err != nil {
@@ -1320,7 +1332,7 @@ func (m *RedisMessage) AsFtSearch() (total int64, docs []FtSearchDoc, err error)
 		return 0, nil, err
 	}
 	if m.IsMap() {
-		for i := 0; i < len(m.values()); i += 2 {
+		for i := 0; i+1 < len(m.values()); i += 2 {
 			switch m.values()[i].string() {
 			case "total_results":
 				total = m.values()[i+1].intlen
@@ -1328,7 +1340,7 @@ func (m *RedisMessage) AsFtSearch() (total int64, docs []FtSearchDoc, err error)
 				records := m.values()[i+1].values()
 				docs = make([]FtSearchDoc, len(records))
 				for d, record := range records {
-					for j := 0; j < len(record.values()); j += 2 {
+					for j := 0; j+1 < len(record.values()); j += 2 {
 						switch record.values()[j].string() {
 						case "id":
 							docs[d].Key = record.values()[j+1].string()
@@ -1370,11 +1382,11 @@ func (m *RedisMessage) AsFtSearch() (total int64, docs []FtSearchDoc, err error)
 		docs = make([]FtSearchDoc, 0, (len(m.values())-1)/offset)
 		for i := 1; i < len(m.values()); i++ {
 			doc := FtSearchDoc{Key: m.values()[i].string()}
-			if wscore {
+			if wscore && i+1 < len(m.values()) {
 				i++
 				doc.Score, _ = strconv.ParseFloat(m.values()[i].string(), 64)
 			}
-			if wattrs {
+			if wattrs && i+1 < len(m.values()) {
 				i++
 				doc.Doc, _ = m.values()[i].AsStrMap()
 			}
@@ -1391,7 +1403,7 @@ func (m *RedisMessage) AsFtAggregate() (total int64, docs []map[string]string, e
 		return 0, nil, err
 	}
 	if m.IsMap() {
-		for i := 0; i < len(m.values()); i += 2 {
+		for i := 0; i+1 < len(m.values()); i += 2 {
 			switch m.values()[i].string() {
 			case "total_results":
 				total = m.values()[i+1].intlen
@@ -1399,7 +1411,7 @@ func (m *RedisMessage) AsFtAggregate() (total int64, docs []map[string]string, e
 				records := m.values()[i+1].values()
 				docs = make([]map[string]string, len(records))
 				for d, record := range records {
-					for j := 0; j < len(record.values()); j += 2 {
+					for j := 0; j+1 < len(record.values()); j += 2 {
 						switch record.values()[j].string() {
 						case "extra_attributes":
 							docs[d], _ = record.values()[j+1].AsStrMap()
@@ -1457,6 +1469,9 @@ func (m *RedisMessage) AsGeosearch() ([]GeoLocation, error) {
 			var i int
 
 			//name
+			if len(info) == 0 {
+				return nil, fmt.Errorf("got %d, expected at least 1", len(info))
+			}
 			loc.Name = info[i].string()
 			i++
 			//distance
@@ -1514,6 +1529,9 @@ func (m *RedisMessage) ToAny() (any, error) {
 	case typeInteger:
 		return m.intlen, nil
 	case typeMap:
+		if len(m.values())%2 != 0 {
+			return nil, fmt.Errorf("%w: redis map message has an odd number of elements: %d", errParse, len(m.values()))
+		}
 		vs := make(map[string]any, len(m.values())/2)
 		for i := 0; i < len(m.values()); i += 2 {
 			if v, err := m.values()[i+1].ToAny(); err != nil && !IsRedisNil(err) {
@@ -1596,6 +1614,9 @@ func (m *RedisMessage) setExpireAt(pttl int64) {
 }
 
 func toMap(values []RedisMessage) (map[string]RedisMessage, error) {
+	if len(values)%2 != 0 {
+		return nil, fmt.Errorf("%w: redis map message has an odd number of elements: %d", errParse, len(values))
+	}
 	r := make(map[string]RedisMessage, len(values)/2)
 	for i := 0; i < len(values); i += 2 {
 		if values[i].typ == typeBlobString || values[i].typ == typeSimpleString {
